@@ -380,7 +380,7 @@ func VsymC18Envelope() {
 		if vr.Choice("respAnnotations", 2) == 1 {
 			pl.envResp.Annotations = map[string]string{"m": "v"}
 		}
-		content.Payload.ContentType = vr.OneOf("payloadType", c18PayloadType, "application/json", "")
+		content.Payload.ContentType = vr.OneOf("payloadType", c18PayloadType, "application/json", "", c18PayloadType+"; charset=utf-8", c18PayloadType+";version=2", "Application/Vnd.CNCF.Notary.Payload.V1+JSON", c18PayloadType+" ")
 		d := &c18Doc{taKey: "targetArtifact", mtKey: "mediaType", mtVal: c18MT, dgKey: "digest", dgVal: c18DigestA, szKey: "size", anKey: "annotations"}
 		dev1 := vr.Choice("deviation", c18Deviations)
 		d.deviate(dev1)
